@@ -124,13 +124,32 @@ def _parse_races(text):
     return res
 
 
-def _stress(ctx, tbl, known, race, millis, seed):
-    """Search for a failing schedule: the real request path against the real admin
-    handlers (harness/dnsforward/zz_verif_C05_test.go)."""
-    outdir = os.path.join(ctx.workdir, "stress_s%d%s" % (seed, "_race" if race else ""))
+# The stress harnesses: package -> files overlaid into it.  dnsforward: DNS
+# request path against the admin handlers of dnsforward / filtering / stats /
+# querylog / client storage, plus Reconfigure; dhcpd: DHCPv4/v6 packet handlers
+# against the static-lease API and the lease store; home: config.write and the
+# SIGHUP reload against the TLS and filtering handlers.
+STRESS_PKGS = {
+    "dnsforward": {"internal/dnsforward/zz_verif_C05_test.go": "harness/dnsforward/zz_verif_C05_test.go"},
+    "dhcpd": {"internal/dhcpd/zz_verif_C05_test.go": "harness/dhcpd/zz_verif_C05_test.go"},
+    "home": {"internal/home/zz_verif_C05_test.go": "harness/home/zz_verif_C05_test.go",
+             "internal/home/zz_verif_common_test.go": "harness/home/zz_verif_common_test.go"},
+}
+
+
+def _reentrant(tbl):
+    """The table still has a re-entrant serverLock.RLock: the dnsforward stress keeps out of
+    those paths (they are then reported by the table); otherwise it enters them on purpose."""
+    sl = "dnsforward.Server.serverLock"
+    return any(o["held"] == sl and o["acq"] == sl for o in tbl.get("lock_order") or [])
+
+
+def _stress(ctx, tbl, known, race, millis, seed, pkg="dnsforward"):
+    """Search for a failing schedule: real code paths of one package against its real
+    admin handlers (harness/<pkg>/zz_verif_C05_test.go)."""
+    outdir = os.path.join(ctx.workdir, "stress_%s_s%d%s" % (pkg, seed, "_race" if race else ""))
     os.makedirs(outdir, exist_ok=True)
-    repl = {os.path.join(ctx.REPO, "internal/dnsforward/zz_verif_C05_test.go"):
-            os.path.join(ctx.VERIF, "harness/dnsforward/zz_verif_C05_test.go")}
+    repl = {os.path.join(ctx.REPO, dst): os.path.join(ctx.VERIF, src) for dst, src in STRESS_PKGS[pkg].items()}
     if os.environ.get("VERIF_EXTRA_OVERLAY"):
         for dst, src in json.loads(os.environ["VERIF_EXTRA_OVERLAY"]).items():
             if dst.startswith("/repo/") and ctx.REPO != "/repo":
@@ -141,15 +160,16 @@ def _stress(ctx, tbl, known, race, millis, seed):
     env = ctx.go_env()
     env.update({"VERIF_SEED": str(seed), "VERIF_OUT": outdir, "VERIF_C05_MS": str(millis),
                 "GORACE": "log_path=%s halt_on_error=0" % os.path.join(outdir, "race")})
+    env.setdefault("VERIF_C05_REENTRANT", "1" if _reentrant(tbl) else "0")
     cmd = ["go", "test", "-overlay", ov, "-tags", "verif", "-count=1", "-vet=off", "-run", "^TestVerifC05Stress$",
            "-timeout", "%ds" % (millis // 1000 + 240)]
     if race:
         cmd.append("-race")
-    cmd.append("./internal/dnsforward/")
+    cmd.append("./internal/%s/" % pkg)
     rc, out = ctx.run(cmd, cwd=ctx.REPO, env=env, timeout=millis // 1000 + 600, logfile=os.path.join(outdir, "go_test.log"))
-    stats = {"race_detector": race, "millis": millis, "seed": seed}
+    stats = {"package": pkg, "race_detector": race, "millis": millis, "seed": seed}
     if "[build failed]" in out or "[setup failed]" in out:
-        ctx.fail("harness", "C05 stress harness no longer builds against the current tree", detail=out[-3000:])
+        ctx.fail("harness", "C05 stress harness of %s no longer builds against the current tree" % pkg, detail=out[-3000:])
         return stats
     rp = os.path.join(outdir, "c05_stress.json")
     if not os.path.exists(rp):
@@ -159,22 +179,30 @@ def _stress(ctx, tbl, known, race, millis, seed):
         where = next((f for f in frames if "TestVerifC05" not in f), "?")
         ctx.fail("property-failure", "server crashed under concurrent reconfiguration: %s in %s" % (m.group(1) if m else "test process died", _norm_fn(where)),
                  finding_key="crash:" + _norm_fn(where), failing_input_found=True,
-                 detail={"case": {"id": "crash-%d" % seed, "seed": seed, "desc": {"kind": "crash", "seed": seed, "output": out[-6000:]}}})
+                 detail={"case": {"id": "crash-%s-%d" % (pkg, seed), "seed": seed, "desc": {"kind": "crash", "package": pkg, "seed": seed, "output": out[-6000:]}}})
         return stats
     rep = json.load(open(rp))
-    stats.update({"queries": rep.get("queries"), "admin_ops": rep.get("admin_ops"), "refused_by_access": rep.get("refused_by_access")})
+    stats.update({k: rep.get(k) for k in ("queries", "admin_ops", "refused_by_access", "reconfigures", "queries_overlapping_restart_not_judged",
+                                          "queries_upstream_timeout_not_judged", "queries_answered_with_block_host", "avoids_reentrant_paths",
+                                          "v4_packets", "v6_packets", "admin_mutations", "admin_reads") if rep.get(k) is not None})
     for i, p in enumerate(rep.get("panics") or []):
         frames = re.findall(r"\n(github.com/AdguardTeam/AdGuardHome/internal/\S+)\(", p)
         where = next((f for f in frames if "TestVerifC05" not in f), "?")
         ctx.fail("property-failure", "panic under concurrent reconfiguration: %s in %s" % (p.splitlines()[0], _norm_fn(where)),
                  finding_key="panic:" + _norm_fn(where), failing_input_found=True,
-                 detail={"case": {"id": "panic-%d-%d" % (seed, i), "seed": seed, "desc": {"kind": "panic", "seed": seed, "panic": p}}})
+                 detail={"case": {"id": "panic-%s-%d-%d" % (pkg, seed, i), "seed": seed, "desc": {"kind": "panic", "package": pkg, "seed": seed, "panic": p}}})
     for i, m in enumerate(rep.get("malformed") or []):
-        ctx.fail("property-failure", "in-flight query without a well-formed response: " + m, finding_key="malformed",
-                 failing_input_found=True, detail={"case": {"id": "malformed-%d-%d" % (seed, i), "seed": seed, "desc": {"kind": "malformed", "seed": seed, "what": m}}})
+        ctx.fail("property-failure", ("in-flight query without a well-formed response: " if pkg == "dnsforward" else "%s: malformed result under concurrent reconfiguration: " % pkg) + m,
+                 finding_key="malformed", failing_input_found=True,
+                 detail={"case": {"id": "malformed-%s-%d-%d" % (pkg, seed, i), "seed": seed, "desc": {"kind": "malformed", "package": pkg, "seed": seed, "what": m}}})
     if rep.get("stalled"):
-        ctx.fail("property-failure", "stall: " + rep["stalled"].splitlines()[0], finding_key="stall", failing_input_found=True,
-                 detail={"case": {"id": "stall-%d" % seed, "seed": seed, "desc": {"kind": "stall", "seed": seed, "goroutines": rep["stalled"]}}})
+        # name the lock operations the blocked goroutines wait in (deadlock participants)
+        waits = sorted(set(_norm_fn(f) for f in re.findall(r"\n(github.com/AdguardTeam/AdGuardHome/internal/[^\s(]+(?:\(\*[^)]+\))?[^\s(]*)\(", rep["stalled"])
+                           if "TestVerifC05" not in f))[:12]
+        stats["stalled"] = True
+        ctx.fail("property-failure", "stall (%s): %s; blocked in: %s" % (pkg, rep["stalled"].splitlines()[0], ", ".join(waits) or "?"),
+                 finding_key="stall", failing_input_found=True,
+                 detail={"case": {"id": "stall-%s-%d" % (pkg, seed), "seed": seed, "desc": {"kind": "stall", "package": pkg, "seed": seed, "goroutines": rep["stalled"]}}})
     # ---- race reports
     if race:
         text = ""
@@ -215,7 +243,7 @@ def _stress(ctx, tbl, known, race, millis, seed):
             if kk:
                 n_known += 1
                 ctx.fail("property-failure", "data race (known site): " + " vs ".join(sig), finding_key=kk[0], failing_input_found=True,
-                         detail={"case": {"id": "race-known-%d" % ci, "seed": seed, "desc": {"kind": "race", "pair": sig}}})
+                         detail={"case": {"id": "race-known-%s-%d" % (pkg, ci), "seed": seed, "desc": {"kind": "race", "package": pkg, "pair": sig}}})
             else:
                 n_new += 1
                 flagged = sorted(keys & badkeys)
@@ -226,13 +254,23 @@ def _stress(ctx, tbl, known, race, millis, seed):
                     " (the lock table calls both sites safe: translator gap or field outside the guard map)"),
                          finding_key=flagged[0] if flagged else "race:" + "|".join(sig), failing_input_found=True,
                          detail={"case": {"id": _hid("race", "|".join(sig)), "seed": seed,
-                                          "desc": {"kind": "race", "seed": seed, "reports": cnt, "stack_pair": [s[2] for s in st]}}})
+                                          "desc": {"kind": "race", "package": pkg, "seed": seed, "reports": cnt, "stack_pair": [s[2] for s in st]}}})
         stats.update({"race_reports": sum(c[0] for c in clusters.values()), "race_clusters": len(clusters),
                       "race_clusters_at_known_sites": n_known, "race_clusters_new": n_new,
                       "translator_gaps": gaps,
                       # goal: every known finding that is a data race is reproduced by the search
                       "known_access_findings_reproduced": reproduced})
     return stats
+
+
+def _reverts(ctx):
+    """Which of the two (lock table, -race stress) reports the revert of each repair commit;
+    measured by corpus/C05/reverts.py, not re-measured per run."""
+    path = os.path.join(ctx.VERIF, "corpus", "C05", "reverts.json")
+    try:
+        return json.load(open(path))
+    except (OSError, ValueError):
+        return "not measured (corpus/C05/reverts.json missing)"
 
 
 def extra(ctx):
@@ -317,8 +355,14 @@ def extra(ctx):
     # ---- search for a failing schedule
     stress = []
     if ctx.tier == "thorough":
-        for sd in (ctx.seed, ctx.seed + 1):
-            stress.append(_stress(ctx, tbl, known, True, 10000, sd))
+        # every package under the race detector; the three packages side by side
+        import concurrent.futures as cf
+
+        def one(pkg):
+            return [_stress(ctx, tbl, known, True, 10000, sd, pkg) for sd in (ctx.seed, ctx.seed + 1)]
+        with cf.ThreadPoolExecutor(max_workers=3) as ex:
+            for res in ex.map(one, sorted(STRESS_PKGS)):
+                stress.extend(res)
     else:
         stress.append(_stress(ctx, tbl, known, False, 1500, ctx.seed))
 
@@ -348,6 +392,7 @@ def extra(ctx):
             "known_findings_no_longer_present": sorted(known - present),
         },
         "stress": stress,
+        "reverted_repairs": _reverts(ctx),
         "stress_known_access_findings_not_reproduced": (sorted(
             k for k in known & present if "<" not in k
             and not any(k in (x.get("known_access_findings_reproduced") or {}) for x in stress))
